@@ -77,7 +77,7 @@ impl Run {
             for (_, v) in items {
                 out.push(v);
             }
-            if out.len() > 10_000 {
+            if out.len() > 300 {
                 break;
             }
         }
